@@ -493,8 +493,8 @@ func (c *CollectionFeature) Clone() Feature {
 	return &CollectionFeature{
 		CollectionID: c.CollectionID,
 		Tags:         c.Tags.Clone(),
-		Keys:         c.Keys,
-		Values:       c.Values,
+		Keys:         slices.Clone(c.Keys),
+		Values:       slices.Clone(c.Values),
 		sorted:       c.sorted,
 	}
 }
@@ -509,9 +509,11 @@ func (c *CollectionFeature) MergeFrom(other Feature) {
 
 func (c *CollectionFeature) MergeFromCollectionFeature(other *CollectionFeature) {
 	c.CollectionID = other.CollectionID
-	c.Tags = other.Tags
-	c.Keys = other.Keys
-	c.Values = other.Values
+	// Copy, rather than share, the tags, keys and values, as for the other
+	// feature types: other belongs to the caller, and can change later.
+	c.Tags.MergeFrom(other.Tags)
+	c.Keys = slices.Clone(other.Keys)
+	c.Values = slices.Clone(other.Values)
 	c.sorted = other.sorted
 }
 
